@@ -914,8 +914,20 @@ def inject(rng: random.Random, case: dict) -> dict | None:
             v = max(ids) + rng.choice([1.0, 0.75, 3.0])
         elif k == "str-int":
             v = str(max(int(x) for x in ids) + rng.randint(1, 9))
+            if rng.random() < 0.5:
+                pool = [c for c in ["1", "-", "0", "-2", "1-", "--1", "-11", "11"] if c not in {str(x) for x in ids}]
+                v = rng.choice(pool)
         else:
-            v = rng.choice(["zzz", "ghost", "cell_x", "nobody"])
+            # besides arbitrary names: texts that LOOK like a "no parent" marker or like part of one
+            # (a substring / prefix test instead of an equality test would accept them), and proper
+            # substrings of real ids
+            pool = ["zzz", "ghost", "cell_x", "nobody", "1", "-", "0", "-2", "1-", "--1", "-1-", "-11", "x"]
+            real = [str(x) for x in ids if len(str(x)) > 1]
+            if real:
+                r_ = rng.choice(real)
+                pool += [r_[:-1], r_[1:], r_ + "_"]
+            pool = [c for c in pool if c not in {str(x) for x in ids} and c not in ("", "-1")]
+            v = rng.choice(pool)
         if case["dtypes"][pcn] == "int64" and not isinstance(v, int):
             return None
         par[i] = v
